@@ -64,6 +64,8 @@ def units(tier, seed):
         for b in range(nb):
             out.append({"kind": "trees", "sid": sid, "family": fam, "nodes": nq if q else nt, "block": b, "nblocks": nb,
                         "name": f"trees/{sid}/{fam}#{b}/{nb}"})
+    for b in range(16):
+        out.append({"kind": "wide", "block": b, "nblocks": 16, "quick": q, "name": f"wide-expressions#{b}/16"})
     # mark-permission family
     fam = schemas.mark_family_specs([("A", "B", "C")])
     step = 16 if q else 4
@@ -453,9 +455,65 @@ def mutations(c, sc, d):
     return out
 
 
+WIDE_ITEMS = ["a", "b*", "c?", "a{1,3}", "b{0,4}", "(c b){0,4}", "(a | b){2,3}", "c{3}", "a+", "(a b)*"]
+
+
+def check_wide(u, res):
+    """Schemas whose top content expression is a sequence of up to 3 WIDE_ITEMS: validity of every child sequence
+    up to 6 over {a, b, c} must agree with the reference (large automata: many subset states)."""
+    from ..ref.schema_model import SchemaModel
+
+    idx = 0
+    n = 0
+    for ln in (1, 2, 3):
+        for combo in itertools.product(WIDE_ITEMS, repeat=ln):
+            if idx % u["nblocks"] != u["block"]:
+                idx += 1
+                continue
+            idx += 1
+            expr = " ".join(combo)
+            spec = {"nodes": {"doc": {"content": expr}, "a": {}, "b": {}, "c": {}, "text": {}}, "marks": {}}
+            engine.kick(20)
+            try:
+                schema = adapters.Schema(spec)
+            except Exception as e:  # noqa: BLE001
+                res.violate("c07.wide.schema-rejected", {"expr": expr}, common.exc_str(e), size=len(expr))
+                continue
+            model = SchemaModel(spec)
+            doc_t = schema.nodes["doc"]
+            regex = model.types["doc"].regex
+            kids = {t: schema.nodes[t].create() for t in "abc"}
+            res.states += 1
+            for L in range(0, (5 if u.get("quick") else 6) + 1):
+                for seq in itertools.product("abc", repeat=L):
+                    res.transitions += 1
+                    want = cexpr.matches(regex, list(seq))
+                    frag = adapters.Fragment([kids[t] for t in seq])
+                    got = doc_t.valid_content(frag)
+                    if bool(got) != want:
+                        res.violate("c07.wide.valid_content", {"expr": expr, "children": list(seq)}, got, want, size=len(expr) + L)
+                        break
+                    try:
+                        doc_t.create_checked(None, [kids[t] for t in seq])
+                        made = True
+                    except ValueError:
+                        made = False
+                    if made != want:
+                        res.violate("c07.wide.create_checked", {"expr": expr, "children": list(seq)}, made, want, size=len(expr) + L)
+                        break
+            n += 1
+    res.sample({"kind": "wide", "expr": " ".join(WIDE_ITEMS[:3])})
+    res.scopes.append({"unit": u["name"], "expressions": n, "completed": True})
+
+
 def run_unit(u):
     res = engine.UnitResult(PROPERTY_ID)
     engine.arm()
+    if u["kind"] == "wide":
+        check_wide(u, res)
+        engine.disarm()
+        res.evaluations = res.transitions
+        return res
     if u["kind"] == "docs":
         c, sc, docs = common.unit_docs(u)
         pool = pool_nodes(c, sc)
@@ -539,6 +597,11 @@ def run_unit(u):
 
 def replay(case):
     res = engine.UnitResult(PROPERTY_ID)
+    if "expr" in case:
+        engine.arm()
+        check_wide({"block": 0, "nblocks": 1, "name": "replay", "quick": True}, res)
+        engine.disarm()
+        return [v for v in res.violations if v.case.get("expr") == case["expr"]]
     c = adapters.Ctx(case["schema"], case["spec"]) if case.get("spec") else adapters.ctx(case["schema"])
     if "tree" in case:
         check_validity(c, case["tree"], res, 0, case.get("how", "replay"))
